@@ -183,6 +183,7 @@ AUDITED_NO_PROGRESS = {
 
 
 def run(ctx):
+    borrowed_fd_not_consumed(ctx)
     # locals / parameters the rules below refer to by name (a rename makes the analysis 'broken', never a violation)
     ctx.anchor(ctx.fn1('Oomd::Fs::readDirFromDIR'), 'flags')
     P, cg = ctx.prog, ctx.cg
